@@ -27,6 +27,18 @@ pub fn get_mtime_tick(path: &Path) -> Option<i64> {
     std::fs::metadata(path).ok().map(|m| m.mtime() - MTIME_BASE)
 }
 
+/// Value of the `@cmd key=<k>` variable as seen from working directory `cwd`: a per-directory
+/// value (`<dir with / replaced by +>__<key>`) shadows the global one. Missing = empty.
+pub fn lookup_var(vars_dir: &Path, root: &Path, cwd: &Path, key: &str) -> Vec<u8> {
+    if let Ok(rel) = cwd.strip_prefix(root) {
+        let m = rel.to_string_lossy().replace('/', "+");
+        if let Ok(v) = std::fs::read(vars_dir.join(format!("{}__{}", m, key))) {
+            return v;
+        }
+    }
+    std::fs::read(vars_dir.join(key)).unwrap_or_default()
+}
+
 /// Decode the path syntax of plans and scenarios: `\xNN` escapes for arbitrary bytes.
 pub fn decode_path(s: &str) -> PathBuf {
     use std::os::unix::ffi::OsStringExt;
